@@ -52,8 +52,9 @@ def repeat(a, repeats, axis=None):
     out = []
     for slab in slabs:
         chunks = list(slab.chunks)
-        assert len(chunks[axis]) == 1
-        chunks[axis] = (chunks[axis][0] * repeats,)
+        # a slab is one block, possibly with empty blocks next to it (a slice
+        # that covers the whole axis keeps them); every block grows alike
+        chunks[axis] = tuple(c * repeats for c in chunks[axis])
         chunks = tuple(chunks)
         result = slab.map_blocks(np.repeat, repeats, axis=axis, chunks=chunks, dtype=slab.dtype)
         out.append(result)
